@@ -35,7 +35,10 @@ RULE = ("Sessions through TorSocksEndpoint.connect / socks.resolve / socks.resol
         "chunks (Hypothesis-drawn cut sets biased to the reply boundary, byte-at-a-time, whole) with the hang-up "
         "placed after any chunk; plus explicit enumeration: every code 0..255 x 3 address types x 3 request types "
         "x 3 segmentations, and for short streams every segmentation of every prefix followed by a hang-up "
-        "(= every segmentation x hang-up at every chunk boundary). Non-trivial = the method reply was accepted and "
+        "(= every segmentation x hang-up at every chunk boundary). Every case also asks the SOCKS protocol's "
+        "when_done() three times (right after connecting, before the hang-up, after it), and the fake proxy "
+        "endpoint reports its connection either at once, after the exchange but before the hang-up, or only "
+        "after the hang-up. Non-trivial = the method reply was accepted and "
         "either a chunk boundary falls strictly inside the request reply or the chunk carrying the reply's last "
         "byte also carries application bytes; distinct = distinct canonical JSON of the case.")
 ASSUMPTIONS = [
@@ -54,6 +57,10 @@ ASSUMPTIONS = [
     "as the packed octets",
     "no application bytes follow a RESOLVE / RESOLVE_PTR reply (Tor closes the stream); TLS wrapping "
     "(tls=True) is not exercised; CONNECT targets are a hostname or an IPv4 literal (request encoding is C06)",
+    "the outcome of one attempt is the same for every observer and at every time: the SOCKS protocol's "
+    "when_done() (the route resolve()/TorSocksEndpoint.connect() use themselves) asked again late must report "
+    "the same result object / the same error class and code as when first asked, and connect()/resolve() over a "
+    "proxy endpoint whose own connect() Deferred fires late must end like the early observer did",
     "time at which a failure is reported is not constrained (only that it is reported once the connection is "
     "gone); what is constrained in time is delivery of application bytes: complete at the end of each chunk",
 ]
@@ -159,7 +166,10 @@ def drive_session(case):
     if [target, port] not in [list(t) for t in TARGETS[req]]:
         raise HarnessError("target %r not in this check's domain" % ((target, port),))
 
-    pipe = SocksPipe(mrep, lambda request: B)
+    report = case.get("report", "early")
+    if report not in ("early", "late-before-hangup", "late-after-hangup"):
+        raise HarnessError("unknown report mode %r" % (report,))
+    pipe = SocksPipe(mrep, lambda request: B, report_late=(report != "early"))
     log = _AppLog(pipe)
     if req == "CONNECT":
         d = socks.TorSocksEndpoint(pipe.endpoint, target, port).connect(_make_app(log, hello))
@@ -168,6 +178,24 @@ def drive_session(case):
     else:
         d = socks.resolve_ptr(pipe.endpoint, target)
     w = Watch(d)
+
+    def observe_protocol():
+        """ask the SOCKS protocol the fake proxy endpoint built for the outcome of its attempt (the route
+        socks.resolve() and TorSocksEndpoint.connect() themselves use): -> Watch | exception | None"""
+        if pipe.proto is None:
+            return None
+        fn = getattr(pipe.proto, "when_done", None)
+        if not callable(fn):
+            raise HarnessError("the SOCKS protocol built by the factory has no when_done()")
+        try:
+            return Watch(fn())
+        except Exception as e:      # judged below: an outcome that cannot be asked for is not an outcome
+            return e
+
+    w_first = observe_protocol()
+    # the observer whose state says "the attempt has completed" while the exchange is running: connect() /
+    # resolve() itself, or - when the proxy endpoint reports its connection late - the protocol's own
+    wa = w if report == "early" or not isinstance(w_first, Watch) else w_first
 
     succ_end = len(R) if (mrep == b"\x05\x00" and req == "CONNECT" and kind == "success") else None
     written = []            # application writes actually made
@@ -185,9 +213,9 @@ def drive_session(case):
                         "%s: application events %r although only %d bytes of the reply stream (success reply "
                         "ends at %r) were delivered" % (where, [e[:2] for e in log.events], n, succ_end))
                 state["stop"] = True
-            if w.succeeded and not (req != "CONNECT" and kind == "success" and n >= len(R)):
+            if wa.succeeded and not (req != "CONNECT" and kind == "success" and n >= len(R)):
                 res.bad("succeeded-before-success-reply", "%s: outcome %r after %d reply bytes" % (
-                    where, w.outcome(), n))
+                    where, wa.outcome(), n))
                 state["stop"] = True
             return
         # a complete success reply has been delivered
@@ -198,15 +226,15 @@ def drive_session(case):
             state["stop"] = True
             return
         if log.count("build") != 1 or log.count("made") != 1:
-            if len(R) < 8 and n == len(R) and w.pending and not log.events:
+            if len(R) < 8 and n == len(R) and wa.pending and not log.events:
                 tag = "seven-byte-reply-not-parsed"
-            elif rep["atyp"] == ref.ATYP_DOMAIN and w.succeeded and not log.events:
+            elif rep["atyp"] == ref.ATYP_DOMAIN and wa.succeeded and not log.events:
                 tag = "connect-domain-reply-not-connected"
             else:
                 tag = "app-not-created-after-success"
             res.bad(tag, "%s: complete success reply (ATYP %d) delivered, buildProtocol x%d makeConnection x%d, "
                          "connect outcome %r" % (where, rep["atyp"], log.count("build"), log.count("made"),
-                                                 _short(w.outcome())))
+                                                 _short(wa.outcome())))
             state["stop"] = True
             return
         kinds = [e[0] for e in first_after]
@@ -214,9 +242,10 @@ def drive_session(case):
             res.bad("app-events-out-of-order", "%s: %r" % (where, kinds))
             state["stop"] = True
             return
-        if w.fired != 1 or w.failed or w.result is not log.protos[0]:
-            res.bad("connect-result-after-success", "%s: connect() outcome %r, expected the protocol the "
-                                                    "factory built" % (where, _short(w.outcome())))
+        if wa.fired != 1 or wa.failed or (wa is w and w.result is not log.protos[0]):
+            res.bad("connect-result-after-success", "%s: %s outcome %r, expected the protocol the "
+                                                    "factory built" % (where, "connect()" if wa is w else
+                                                                       "when_done()", _short(wa.outcome())))
             state["stop"] = True
             return
         want = B[succ_end:n]
@@ -263,7 +292,13 @@ def drive_session(case):
         app_writes(len(case["sched"]))
     n_final = dB()
     dropped_by_client = pipe.lost
+    w_mid = observe_protocol()          # asked while the exchange is still open
+    if report == "late-before-hangup":
+        pipe.report()
     pipe.lose()
+    if report == "late-after-hangup":
+        pipe.report()
+    w_late = observe_protocol()         # asked only after the connection is gone
     # what the *server* got to send before it hung up; a client that drops the connection itself (or raises
     # out of dataReceived) is still judged against the stream it was being sent
     n_plan = planned_reply_bytes(case, mrep == b"\x05\x00", len(B))
@@ -276,6 +311,11 @@ def drive_session(case):
     for e in pipe.escaped:
         if type(e).__name__ == "AlreadyCalledError":
             res.bad("completed-twice", "AlreadyCalledError escaped: %r" % (e,))
+    # "exactly once": whoever asks, and whenever, is told the same outcome
+    _judge_agreement(res, w, w_first, w_mid, w_late, report)
+    if not res.ok:
+        _classify(res, case, pipe, R, app_bytes, succ_end, n_final, mrep)
+        return res
     if w.fired != 1:
         res.bad("not-completed-after-hangup" if w.fired == 0 else "completed-twice",
                 "attempt fired %d times after the connection was lost (chunks %r, escaped %r)" % (
@@ -333,6 +373,45 @@ def drive_session(case):
                                                           "wrote %r" % (pipe.relayed, want_out))
     _classify(res, case, pipe, R, app_bytes, succ_end, n_final, mrep)
     return res
+
+
+def _same_outcome(a, b, identical_result):
+    if a.failed != b.failed:
+        return False
+    if a.failed:
+        ea, eb = a.failure.value, b.failure.value
+        return type(ea) is type(eb) and getattr(ea, "code", None) == getattr(eb, "code", None)
+    if identical_result:
+        return a.result is b.result or (isinstance(a.result, (bytes, str)) and a.result == b.result)
+    return True
+
+
+def _judge_agreement(res, w, w_first, w_mid, w_late, report):
+    """w: connect()/resolve(); w_first/w_mid/w_late: the protocol's when_done() asked right after the
+    connection was made, before the hang-up and after it.  All must have been told, once, and the same."""
+    moments = (("right after connecting", w_first), ("before the hang-up", w_mid), ("after the hang-up", w_late))
+    for name, ob in moments:
+        if ob is None:
+            continue
+        if isinstance(ob, Exception):
+            res.bad("outcome-cannot-be-asked-for", "when_done() %s raised %r" % (name, ob))
+            return
+        if ob.fired != 1:
+            res.bad("observer-not-told-once", "the observer registered %s fired %d times after the connection "
+                                              "was lost" % (name, ob.fired))
+            return
+    if not isinstance(w_first, Watch):
+        return
+    for name, ob in moments[1:]:
+        if isinstance(ob, Watch) and not _same_outcome(w_first, ob, True):
+            res.bad("outcome-changes-after-completion",
+                    "when_done() asked right after connecting was told %r, asked %s it was told %r" % (
+                        _short(w_first.outcome()), name, _short(ob.outcome())))
+            return
+    if w.fired == 1 and not _same_outcome(w_first, w, False):
+        res.bad("outcome-changes-after-completion",
+                "the protocol's first observer was told %r but %s (proxy endpoint reported its connection: %s) "
+                "was told %r" % (_short(w_first.outcome()), "connect()/resolve()", report, _short(w.outcome())))
 
 
 def planned_reply_bytes(case, mrep_ok, total):
@@ -406,6 +485,8 @@ def _classify(res, case, pipe, R, app_bytes, succ_end, n_final, mrep):
     rep = case["reply"]
     req = case["req"]
     res.label("req:" + req)
+    if case.get("report", "early") != "early":
+        res.label("proxy-endpoint-reports-" + case["report"])
     if mrep != b"\x05\x00":
         res.label("method-reply:" + ("wrong-version" if mrep[:1] != b"\x05" else
                                      "method-%02x" % mrep[1] if mrep[1:2] in (b"\x02", b"\xff") else
@@ -527,6 +608,7 @@ _WRITES = st.lists(st.tuples(st.integers(0, 1 << 20), st.binary(min_size=1, max_
 _BOOL = st.booleans()
 _FRACTION = st.integers(0, 1 << 20)
 _TARGET_IDX = st.integers(0, 5)
+_REPORTS = st.sampled_from(["early", "early", "early", "late-before-hangup", "late-after-hangup"])
 
 
 @st.composite
@@ -562,15 +644,15 @@ def cases(draw):
         writes = [[len(sched) if step & 1 else (step >> 1) % (len(sched) + 1), data.hex()]
                   for step, data in draw(_WRITES)]
     return {"req": req, "target": list(target), "mrep": mrep, "reply": rep, "app": app.hex(), "sched": sched,
-            "cut": cut, "hello": hello.hex(), "writes": writes}
+            "cut": cut, "hello": hello.hex(), "writes": writes, "report": draw(_REPORTS)}
 
 
 # --------------------------------------------------------------------------- explicit enumerations
 
-def _case(req, rep, app=b"", sched=None, cut=False, mrep="0500", hello=b"", writes=()):
+def _case(req, rep, app=b"", sched=None, cut=False, mrep="0500", hello=b"", writes=(), report="early"):
     return {"req": req, "target": list(TARGETS[req][0]), "mrep": mrep, "reply": rep, "app": app.hex(),
             "sched": list(sched if sched is not None else [2, 10 ** 6]), "cut": cut, "hello": hello.hex(),
-            "writes": [list(x) for x in writes]}
+            "writes": [list(x) for x in writes], "report": report}
 
 
 def _rep(code, atyp, addr, port=0x1234, ver=5):
@@ -589,16 +671,18 @@ def all_codes_cases():
                 rep = _rep(code, atyp, ADDR[atyp])
                 n = len(reply_bytes(rep))
                 app = b"HELLO\r\n" if req == "CONNECT" else b""
+                modes = ("early", "late-before-hangup", "late-after-hangup")
                 yield _case(req, rep, app, [2, n + len(app)])
-                yield _case(req, rep, app, [1, 1] + [1] * (n + len(app)))
-                yield _case(req, rep, app, [2, n - 1, 1 + len(app)], writes=[[2, "6162"]])
+                yield _case(req, rep, app, [1, 1] + [1] * (n + len(app)), report=modes[(code + atyp + 1) % 3])
+                yield _case(req, rep, app, [2, n - 1, 1 + len(app)], writes=[[2, "6162"]],
+                            report=modes[(code + atyp) % 3])
         if code:
             # failure replies whose address type is not 1/3/4 (zero-filled as many servers send them)
             for atyp in (0, 2, 0xff):
                 rep = _rep(code, atyp, b"\x00" * 4, port=0)
                 n = len(reply_bytes(rep))
                 yield _case("CONNECT", rep, b"", [2, n])
-                yield _case("RESOLVE", rep, b"", [1, 1] + [1] * n)
+                yield _case("RESOLVE", rep, b"", [1, 1] + [1] * n, report="late-after-hangup")
 
 
 def method_reply_cases(full=True):
@@ -709,7 +793,8 @@ def one_cut_cases(kinds):
     for req, rep, app in kinds:
         total = len(reply_bytes(rep)) + len(app)
         for c in range(1, total):
-            yield _case(req, rep, app, [2, c, total - c], writes=[[1, "70696e67"], [2, "706f6e67"]])
+            yield _case(req, rep, app, [2, c, total - c], writes=[[1, "70696e67"], [2, "706f6e67"]],
+                        report=("early", "late-before-hangup", "late-after-hangup")[c % 3])
 
 
 DRIVERS = {"session": drive_session}
@@ -787,6 +872,20 @@ MUTANTS = [
      "            self._data = self._data[22:]", "            self._data = self._data[20:]"),
     ("ipv4-reply-needs-an-11th-byte", _F,
      "        if len(self._data) >= 10:", "        if len(self._data) > 10:"),
+    # "exactly once" for whoever asks late (second when_done(), proxy endpoint that reports its connection late)
+    ("single-observer-second-fire-overwrites", "txtorcon/util.py",
+     "        if self._observers is None:\n            return  # raise RuntimeError(\"already fired\") ?\n"
+     "        self._fired = value\n",
+     "        self._fired = value\n        if self._observers is None:\n"
+     "            return  # raise RuntimeError(\"already fired\") ?\n"),
+    ("late-observer-gets-no-answer", "txtorcon/util.py",
+     "        if self._fired is not self._NotFired:\n            d.callback(self._fired)\n        else:\n"
+     "            self._observers.append(d)",
+     "        if self._observers is not None:\n            self._observers.append(d)"),
+    ("close-of-relayed-stream-resets-outcome", _F,
+     "            self._sender.connectionLost(Failure(error))\n        self._when_done.fire(Failure(error))",
+     "            self._sender.connectionLost(Failure(error))\n            self._when_done = util.SingleObserver()\n"
+     "        self._when_done.fire(Failure(error))"),
     ("resolve-ipv4-answer-reversed", _F,
      "            addr = inet_ntoa(self._data[4:8])", "            addr = inet_ntoa(self._data[4:8][::-1])"),
 ]
